@@ -81,6 +81,7 @@ ROUTES = [
     ('http-upstream-down', 'ok.test', 1005, False), ('socks5-upstream-down', 'ok.test', 1006, False),
     # replies of the upstream in other spellings / with other codes
     ('http-ok-noreason', 'status-noreason.test', 1001, True), ('http-ok-http10', 'status-http10.test', 1001, True), ('http-ok-longreason', 'status-longreason.test', 1001, True),
+    ('http-ok-hdr-nospace', 'status-hdr-nospace.test', 1001, True), ('http-ok-hdr-spaces', 'status-hdr-spaces.test', 1001, True),
     ('socks4-cd-0', 'cd-0.test', 1003, False), ('socks4-cd-1', 'cd-1.test', 1003, False), ('socks4-cd-89', 'cd-89.test', 1003, False), ('socks4-cd-92', 'cd-92.test', 1003, False),
     ('socks4-cd-255', 'cd-255.test', 1003, False), ('socks4-cd-90', 'cd-90.test', 1003, True),
     ('socks5-v4reply-90', 'v4reply-90.test', 1002, False), ('socks5-v4reply-0', 'v4reply-0.test', 1002, False),
@@ -288,7 +289,6 @@ special('http-udp-channel-not-offered', http_bad(b'Proxy-Protocol: udp\r\nProxy-
 special('http-udp-channel-quic-datagrams-on-tcp-listener', http_bad(b'Proxy-Protocol: udp\r\nProxy-Channel: quic-datagrams\r\n'), True)
 special('http-protocol-unknown', http_bad(b'Proxy-Protocol: sctp\r\n'), True)
 special('http-target-without-port', http_bad(b'', target='nohost'), True)
-
 # ---- the VER byte of the SOCKS5 request itself (after the method negotiation): whatever it is, the client of a SOCKS5
 #      session is answered in SOCKS5, and a tunnel is not established behind its back
 def s5_request_ver(ver, tport):
@@ -381,6 +381,22 @@ for client in ('socks5', 'http'):
     special(f'{client}-udp-upstream-says-403', udp_via('u403', client), True)
     special(f'{client}-udp-upstream-closes', udp_via('uclose', client), True)
     expect_established(f'{client}-udp-upstream-accepts', udp_via('u200', client))
+# legal spellings of a request the listener must serve: header fields without the optional blank
+for hname, hdrs in (('nospace', b'Host:127.0.0.1\r\nX-A:b\r\n'), ('spaces', b'Host:   127.0.0.1  \r\nX-Empty:\r\n')):
+    expect_established(f'http-request-header-{hname}', lambda hdrs=hdrs: http_bad(hdrs)())
+# a blank-only line in the upstream's head: the rest of the head must not arrive as tunnel payload
+def leak():
+    s, code, head, rest = http_connect(hp, 'blankline.test:1001', timeout=5)
+    more, how = recv_until_eof(s, 1.5)
+    s.close()
+    return code, rest + more
+evals += 1
+code, data = leak()
+distinct.add(('blankline', code, bool(data)))
+if b'must-not-leak' in data:
+    chk.violation('reply.wellformed', 'upstream-head-leaks-into-tunnel:blank-line', f'an upstream head containing a line of blanks: the client was told {code} and received the rest of the head as payload: {data[:60]!r}', {'reply_code': code, 'payload': data[:200].hex()})
+
+
 after_success('socks5-udp-associate-idle-timeout', assoc_idle, 10)
 after_success('socks5-udp-associate-datagram-to-closed-port-then-idle', assoc_used_then_idle, 10)
 after_success('http-udp-inline-idle-timeout', http_udp_idle, 0)
